@@ -59,7 +59,9 @@ pub fn script_json(s: &Script) -> serde_json::Value {
 pub fn run(cfg: &RunCfg) -> Ctx {
     let mut all = Ctx::new();
     all.merge(par_cases(cfg, "loopback", cfg.n(3000, 16 * 25_000), || (), |_, rng, ctx, i| loop_case(rng, ctx, i)));
-    // H2LEG
+    all.merge(par_cases(cfg, "h2", cfg.n(150, 16 * 400), || (), |_, rng, ctx, _| h2_case(rng, ctx)));
+    all.floor("h2.calls_judged", 50);
+    all.floor("h2.small_windows", 5);
     for sh in SHAPES {
         all.floor(&format!("shape.{:?}.ok", sh), 5);
         all.floor(&format!("shape.{:?}.err", sh), 5);
@@ -126,6 +128,44 @@ fn loop_case(rng: &mut Rng, ctx: &mut Ctx, idx: u64) {
     ctx.fingerprint(
         format!("lb|{:?}|k{}|{}|upfront{}|n{}|md{}|piece{}", shape, script.msgs.len().min(3), match &script.end { None => "ok".to_string(), Some(s) => format!("e{}", s.code) }, script.fail_up_front as u8, spec.req_msgs.len().min(3), script.initial_md.len().min(2), max_piece),
         script.end.is_some() || script.msgs.len() >= 2 || spec.req_msgs.len() >= 2,
+    );
+    ctx.sample(case_json);
+}
+
+/// Real Endpoint/Channel <-> real Server over fragmenting in-memory pipes with tiny HTTP/2 windows on
+/// a paused clock: hyper/h2 now cut DATA frames wherever the windows force them to.
+fn h2_case(rng: &mut Rng, ctx: &mut Ctx) {
+    use crate::props::c13::{gen_scenario, run_scenario, scenario_json};
+    let sc = gen_scenario(rng, false);
+    let case_json = scenario_json(&sc);
+    ctx.begin("h2-scenario", case_json.clone());
+    if sc.server_window.is_some() || sc.client_window.is_some() {
+        ctx.count("h2.small_windows");
+    }
+    let out = run_scenario(&sc);
+    for (i, c) in sc.calls.iter().enumerate() {
+        let outcome = if c.script.end.is_some() { "err" } else { "ok" };
+        ctx.set_class(&format!("{:?}-{}", c.shape, outcome));
+        ctx.count(&format!("shape.{:?}.{}", c.shape, outcome));
+        match &out.views[i] {
+            None => ctx.violation("call-open", format!("call {} ({:?}) did not complete within 3600 virtual seconds", c.id, c.shape)),
+            Some(v) => {
+                for (d, what) in judge_call(c.shape, &c.script, v) {
+                    ctx.violation(&d, format!("[h2] call {}: {}", c.id, what));
+                }
+                for (d, what) in judge_request(&sc.specs[i], &c.script, &out.logs[i]) {
+                    ctx.violation(&d, format!("[h2] call {}: {}", c.id, what));
+                }
+                ctx.count("h2.calls_judged");
+            }
+        }
+    }
+    ctx.add("transport.h2_pipe_reads", out.pipe_stats.0);
+    ctx.add("transport.h2_injected_pendings", out.pipe_stats.2);
+    ctx.add("transport.h2_bytes", out.pipe_stats.3);
+    ctx.fingerprint(
+        format!("h2|conns{}|calls{}|sw{:?}|cw{:?}|pipe{}x{}", sc.conns, sc.calls.len().min(4), sc.server_window.map(|w| w.min(100)), sc.client_window.map(|w| w.min(100)), sc.pipe_cfg.max_read.min(100), sc.pipe_cfg.max_write.min(100)),
+        sc.calls.len() >= 2 || sc.server_window.is_some(),
     );
     ctx.sample(case_json);
 }
